@@ -80,6 +80,14 @@ def body_api(case, rec):
     got = (res.stats.cuts, res.stats.breaks, res.stats.joins)
     if got != exp:
         raise Violation(f"reported cuts/breaks/joins {got}, independent count {exp}")
+    # asking for the assemblies again must not change what is reported
+    try:
+        res.build.assemblies_with_scaffolds_fused()
+    except Exception:  # noqa: BLE001
+        return
+    got2 = (res.stats.cuts, res.stats.breaks, res.stats.joins)
+    if got2 != exp:
+        raise Violation(f"after a second call of assemblies_with_scaffolds_fused() the statistics read {got2}, independent count {exp}")
 
 
 def body_cli(case, rec):
@@ -155,9 +163,16 @@ def cases(draw, cli=False):
     return case
 
 
+def haplotig_sliver_cases():
+    """tagged maps with fractional texels, gaps of ~2 texels and many Haplotig pieces: some haplotig overlap results are emptied by trimming"""
+    return gen.tagged_case(slivers=True, two_haplotypes=False, max_scaffolds=4, max_contigs=6, piece_tag_weight=2, unloc_weight=50, many_painted=True)
+
+
 SUBS = [
     Sub("api", kind="hyp", strategy=cases, body=body_api,
         budget={"quick": 24000, "thorough": 400000}, desc="AssemblyStats.cuts/breaks/joins vs independent adjacency count"),
     Sub("cli", kind="hyp", strategy=lambda: cases(cli=True), body=body_cli,
         budget={"quick": 240, "thorough": 3000}, desc="log line, info.yaml totals and haplotig-removal count vs the AGP files written"),
+    Sub("cli_haplotigs", kind="hyp", strategy=haplotig_sliver_cases, body=body_cli,
+        budget={"quick": 320, "thorough": 4000}, desc="same on maps full of Haplotig pieces that cover mostly gap (overlap results emptied after the H_n name was issued)"),
 ]
